@@ -434,4 +434,23 @@ def r6_siblings(chk):
     chk.ob('C13.R6', 'writers/mutator-sequence', a == b, 'pysmi/writer', 'FileWriter %s vs PyFileWriter %s' % (a, b))
 
 
-RULES = [r1_dryrun, r2_typestate, r3_complete_write, r4_cleanup, r5_compile_stage, r6_siblings]
+def r7_callback_writer(chk):
+    model = chk.model
+    ci = model.cls('pysmi/writer/callback.py', 'CallbackWriter')
+    o, fn = ci.find_method('putData')
+    chk.doc('C13.R7', 'CallbackWriter.putData: the user callback gets (name, text, context) unchanged and any exception '
+                      'it raises surfaces as PySmiWriterError')
+    calls = [c for c in walk_no_nested(fn) if isinstance(c, ast.Call) and common.is_self_attr(c.func, '_cbFun')]
+    p = [a.arg for a in fn.args.args]
+    ok = len(calls) == 1 and [norm(a) for a in calls[0].args] == [p[1], p[2], 'self._cbCtx']
+    chk.ob('C13.R7', 'CallbackWriter.putData/callback-args', ok, where(ci.mod, fn), '%s' % [norm(c) for c in calls])
+    if calls:
+        ts = enclosing_trys(common.stmt_of(calls[0]), fn)
+        h = cr.handler_covering(model, ci.mod, ts[0], ('Exception', 'BaseException')) if ts else None
+        good = h is not None and isinstance(h.body[-1], ast.Raise) and 'PySmiWriterError' in model.exc_ancestors(
+            ci.mod, h.body[-1].exc.func if isinstance(h.body[-1].exc, ast.Call) else h.body[-1].exc)
+        chk.ob('C13.R7', 'CallbackWriter.putData/failure-converted', good, where(ci.mod, fn),
+               'a failing callback must raise PySmiWriterError')
+
+
+RULES = [r1_dryrun, r2_typestate, r3_complete_write, r4_cleanup, r5_compile_stage, r6_siblings, r7_callback_writer]
